@@ -148,5 +148,11 @@ def run(prog, rep):
     import_verdicts(prog, rep, "C13", ("FWD-1",), "OBL-MERGE",
                     "MERGE-REC treats the refusals of the nested merge as already checked by the outer merge_check: that holds only when the nested "
                     "merge runs with the caller's strict flag; a dropped or changed flag lets the nested level refuse after the outer level wrote")
+    import_verdicts(prog, rep, "C13", ("SIB-2",), "OBL-MERGE",
+                    "Property.merge writes after merge_check passed: every refusal of the later steps - the conversion of the source values in "
+                    "extend() among them - has to be raised by merge_check first, for every destination")
+    import_verdicts(prog, rep, "C03", ("PAIR-1",), "TREE-I",
+                    "a mutator that can leave a child outside its parent's list while the child still points to the parent (PAIR-1 follows every "
+                    "path, also the one on which a later list operation refuses its argument) has changed the tree although it raised")
     rep.assume("the tree invariant of C03 and the dtype conformance of C05 hold in the pre-state (used by the derived contracts)")
     rep.assume("raise vocabulary: explicit raise statements + LIB_RAISES table (odmlsa/raises.py); RuntimeError('cannot unmerge myself?') is an internal assertion and excluded")
